@@ -26,6 +26,6 @@ ClsEqSmall == {"CirclePix", "PolygonPix", "CircleSky", "PolygonSky"}
 ClsSiblings == {"RectanglePix", "EllipseAnnulusSky"}
 NoDev == {}
 NoExtra == {}
-TolProbes == {"pFar", "pFarC", "pO", "pOc", "sAobs"}
+TolProbes == {"pFar", "pFarC", "pO", "pOc", "sAobs", "sAnear", "sAfar"}
 DevKnown == {"AssignAnnulusUnchecked"}
 =============================================================================
